@@ -152,7 +152,8 @@ KIND_FLAG = {"struct": "--allowlist-type", "union": "--allowlist-type", "enum": 
 
 
 def pattern_forms(name):
-    return [("literal", name), ("class", name[:-1] + "[" + name[-1] + "]"), ("alt", f"{name}|NoSuchName"), ("group", f"({name})"), ("dot", name[:-1] + ".")]
+    return [("literal", name), ("class", name[:-1] + "[" + name[-1] + "]"), ("alt", f"{name}|NoSuchName"), ("group", f"({name})"), ("dot", name[:-1] + "."),
+            ("count", name[:-1] + "[" + name[-1] + "]{1,1}"), ("count-range", name[0] + "[A-Za-z0-9_]{" + str(len(name) - 1) + "," + str(len(name) - 1) + "}")]
 
 
 def emitted_names(inv):
@@ -284,6 +285,8 @@ def run(ck, only=None):
     compile_groups(ck, compile_list, meta, wd)
     if not only or only.get("part") == "special":
         special_cases(ck)
+    if not only or only.get("part") == "nested":
+        nested_definitions(ck)
     if not only or only.get("part") == "anon":
         anon_cases(ck, only)
     if not only or only.get("part") == "ctor":
@@ -387,6 +390,74 @@ def special_cases(ck):
         extra = sorted(mustnot & names)
         if missing or extra:
             ck.violation(f"special flags={fl}", {"part": "special", "why": f"missing {missing}; wrongly emitted {extra}; emitted {sorted(names)[:14]}"})
+
+
+NESTED_H = r"""
+struct packet { struct header { unsigned char version; unsigned short length; } hdr;
+                union payload { int word; char bytes[4]; } body;
+                struct { int ax; } anon; enum mode { M_A, M_B } m; int tail; };
+struct outer2 { struct mid2 { struct leaf2 { double d; } l; int k; } m; };
+struct unrelated { int u; };
+typedef struct packet packet_t;
+int send_packet(struct packet *p);
+"""
+
+
+def nested_definitions(ck):
+    """An allowlisted record that contains the DEFINITIONS of named member types: the inner types come with it (they are part of
+    its definition), with and without --no-recursive-allowlist, and every emitted item is token-identical to the full bindings."""
+    wd = os.path.join(ck.wd, "nested")
+    os.makedirs(wd, exist_ok=True)
+    hp = os.path.join(wd, "nested.h")
+    open(hp, "w").write(NESTED_H)
+    base = [hp, "--formatter", "none", "--with-derive-default", "--with-derive-hash", "--with-derive-partialeq"]
+    T = [("packet", ["--allowlist-type", "packet"]), ("packet-norec", ["--allowlist-type", "packet", "--no-recursive-allowlist"]),
+         ("packet-item-norec", ["--allowlist-item", "packet", "--no-recursive-allowlist"]),
+         ("outer2-norec", ["--allowlist-type", "outer2", "--no-recursive-allowlist"]), ("outer2", ["--allowlist-type", "outer2"]),
+         ("fn-norec", ["--allowlist-function", "send_packet", "--allowlist-type", "packet", "--no-recursive-allowlist"]),
+         ("typedef-norec", ["--allowlist-type", "packet_t", "--allowlist-type", "packet", "--no-recursive-allowlist"])]
+    jobs = [{"id": "full", "args": base, "inventory": True}] + [{"id": n, "args": base + fl, "inventory": True} for n, fl in T]
+    res = common.run_jobs(jobs, wd)
+    common.guard(res["full"]["status"] == "ok", "C09 nested-definition header failed to generate: " + str(res["full"])[:200])
+
+    def items(inv):
+        out = {}
+        for k, it in enumerate(inv["items"]):
+            if it["kind"] in ("struct", "union", "type", "const", "enum", "static", "fn") and it.get("name") and it["name"] != "_":
+                out[it["name"]] = it["tokens"]
+            elif it["kind"] == "assert_block":
+                out[f"assert:{common.sha(it['tokens'])}"] = it["tokens"]
+            elif it["kind"] == "impl":
+                out[f"impl:{it.get('trait')}:{it.get('self_ty')}"] = it["tokens"]
+            elif it["kind"] == "foreign_mod":
+                for fi in it["items"]:
+                    out[fi["name"]] = fi["tokens"]
+        return out
+    full = items(res["full"]["inventory"])
+    expect = {"packet": {"packet", "packet_header", "packet_payload", "packet_mode"}, "outer2": {"outer2", "outer2_mid2", "outer2_mid2_leaf2"}}
+    for n, fl in T:
+        ck.count()
+        ck.nontriv(("nested", n))
+        r = res[n]
+        if r["status"] != "ok":
+            ck.violation(f"nested case={n} generation-failed", {"part": "nested", "why": str(r)[:200]})
+            continue
+        got = items(r["inventory"])
+        want = expect["outer2" if n.startswith("outer2") else "packet"]
+        missing = sorted(x for x in want if x not in got)
+        differ = sorted(k for k, v in got.items() if k in full and full[k] != v)
+        alien = sorted(k for k in got if k not in full and not k.startswith("assert:"))
+        unrelated = sorted(k for k in got if k in ("unrelated",) or (n.startswith("outer2") and k.startswith("packet")) or (n.startswith("packet") and k.startswith("outer2")))
+        if missing or differ or alien or unrelated:
+            ck.violation(f"nested case={n}", {"part": "nested", "why": f"flags {fl}: missing {missing}; items that differ from the un-allowlisted bindings {differ[:6]}; "
+                                                                      f"items that do not exist there {alien[:6]}; unrelated items {unrelated}"})
+        # the output must compile on its own (its layout assertions included)
+        bp = os.path.join(wd, f"{n}.rs")
+        open(bp, "w").write("#![allow(warnings)]\n" + r["text"])
+        ok, err = common.rustc_meta(bp)
+        if not ok:
+            ck.violation(f"nested case={n} not-self-contained", {"part": "nested", "why": " | ".join(re.findall(r"error(?:\[E\d+\])?: .*", err)[:3])[:400]})
+    ck.extra["nested_definition_runs"] = len(T)
 
 
 def file_cases(ck, gs, only=None):
